@@ -113,6 +113,21 @@ class C07(CheckBase):
                         yield with_cause(base, cause, {"turn": n}, phase, rng)
         else:
             scn = gen_session(rng)
+            if rng.random() < 0.2:
+                # the application lets go of its APIClient while the session lives (the loop keeps transport, protocol and
+                # connection alive): whatever ends the session later, the stop callback given at connect time still runs
+                main = scn["actors"][0]["steps"]
+                k = next((i for i, st in enumerate(main) if st["do"] in ("connect", "finish")), 0)
+                scn["actors"] = [{"id": "a0", "at": {"t": 0.0}, "steps": main[: k + 1] + [{"do": "drop_client"}, {"do": "sleep", "d": 30.0}]}]
+                trig = {"on": "state", "match": {"new": "CONNECTED"}, "delay": pick(rng, [0.01, 0.5, 3.0])}
+                how = pick(rng, ["dev", "fin", "rst", "garbage"])
+                scn["events"] = [e for e in scn["events"] if e.get("do") == "dev"]
+                if how == "dev":
+                    scn["events"].append({"at": trig, "do": "dev", "act": {"msgs": [["DisconnectRequest", {}]], "latency": 0.0}})
+                else:
+                    scn = with_cause(scn, how, trig, "pre", rng)
+                yield scn
+                return
             if rng.random() < 0.7:
                 # the application reconnects from inside its stop callback (at once or after yielding); the session made
                 # there ends later for another reason: its stop callback has to run as well
